@@ -42,7 +42,7 @@ func main() {
 	if *only != "" {
 		r.Only = regexp.MustCompile(*only)
 	}
-	rule.Run(r)
+	props.RunAll(*prop, r)
 	if *list {
 		for _, o := range r.Obl {
 			fmt.Printf("%-10s %-70s sites=%d\n", o.Verdict, o.Key, o.Sites)
